@@ -697,6 +697,10 @@ func runHist(o *Out, thorough bool, withUC bool) {
 					Tight: ci%2 == 0, ForceWindows: true, Metric: true, Precedence: rng.Intn(2) == 0}
 			}
 		}
+		if withUC && ci%6 == 5 {
+			// a fixed initial stop between two removable stops, then a rejected vehicle-level un-plan (scripted, see FixedMid)
+			p = Profile{MaxStops: 5 + rng.Intn(4), MaxVehicles: 1, FixedMiddle: true, NonMetric: rng.Intn(2) == 0, Capacity: rng.Intn(3) == 0}
+		}
 		c := genCase(rng, p)
 		if ci%8 == 6 && !waitBias && c.Dur != nil && len(c.Neutral) == 0 && len(c.Trap) == 0 && !c.ClaimMetric {
 			// coarse durations: many insertion positions cost exactly the same — the tie handling of the best-move search
@@ -713,6 +717,11 @@ func runHist(o *Out, thorough bool, withUC bool) {
 		hc := &histCase{Case: c, Seed: rng.Int63()}
 		if withUC {
 			hc.UC = genUserConstraint(rng, c)
+			if len(c.FixedMid) == 3 {
+				// a constraint that lets the scripted prelude through (at most six stops on a vehicle); the rejection of the
+				// vehicle-level un-plan comes from the route-forbidding constraint
+				hc.UC = &userConstraint{Level: "vehicle", Kind: "count", K: 6, Temporal: rng.Intn(2) == 0}
+			}
 		}
 		if withUC && ci%6 == 4 {
 			// a group whose members can only be removed in reverse order, under a user constraint that lets two stops on
@@ -1026,6 +1035,7 @@ func runHistCase(o *Out, ci int, hc *histCase, nops int, distinct map[string]boo
 	// of the first vehicle, so that placements of x's unit between them (an unchanged planned stop between two inserted
 	// stops) are among those the estimate sweep enumerates
 	type forcedOp struct {
+		veh  bool // a vehicle-level un-plan of the first vehicle, rejected through the forbidding user constraint
 		plan bool // false: un-plan the stop's unit
 		stop int  // case stop index
 		back int  // plan: gap counted from the vehicle's end (1 = in front of the end stop, 2 = in front of the last planned stop)
@@ -1038,23 +1048,29 @@ func runHistCase(o *Out, ci int, hc *histCase, nops int, distinct map[string]boo
 				t = cand
 			}
 		}
-		forced = []forcedOp{{true, t[0], 1}, {true, t[2], 1}}
+		forced = []forcedOp{{false, true, t[0], 1}, {false, true, t[2], 1}}
 	}
 	// removal trap (A, B): B is planned at the tail of the first vehicle, A in front of it, then B is un-planned — the
 	// direct leg from A to the vehicle's end is long, so the removal makes the vehicle finish after its end time
 	if len(c.Trap) == 2 {
-		forced = []forcedOp{{true, c.Trap[1], 1}, {true, c.Trap[0], 2}, {false, c.Trap[1], 0}}
+		forced = []forcedOp{{false, true, c.Trap[1], 1}, {false, true, c.Trap[0], 2}, {false, false, c.Trap[1], 0}}
 	}
 	// duration group whose members wait (histw): members and the tight follower are planned one behind the other, so that
 	// the placements of every other unit BETWEEN two members are among those the sweep and the best-move oracle enumerate
 	if waitBias && len(c.DGScript) >= 3 {
 		forced = nil
 		for _, si := range c.DGScript {
-			forced = append(forced, forcedOp{true, si, 1})
+			forced = append(forced, forcedOp{false, true, si, 1})
 		}
 	}
+	if len(c.FixedMid) == 3 {
+		o.Count(fmt.Sprintf("fixedmid-script:uc=%v", uc != nil))
+	}
+	if uc != nil && len(c.FixedMid) == 3 {
+		forced = []forcedOp{{false, true, c.FixedMid[1], 1}, {false, true, c.FixedMid[2], 3}, {true, false, 0, 0}}
+	}
 	if len(c.InitUnplan) > 0 {
-		forced = []forcedOp{{false, c.InitUnplan[0], 0}}
+		forced = []forcedOp{{false, false, c.InitUnplan[0], 0}}
 	}
 	dgReported := false
 	for step := 0; step < nops; step++ {
@@ -1078,6 +1094,9 @@ func runHistCase(o *Out, ci int, hc *histCase, nops int, distinct map[string]boo
 			kind = 45
 			if !forced[0].plan {
 				kind = 60
+			}
+			if forced[0].veh {
+				kind = 78
 			}
 		}
 		if pending != nil {
@@ -1151,6 +1170,78 @@ func runHistCase(o *Out, ci int, hc *histCase, nops int, distinct map[string]boo
 				o.Count("tainted-by:accepted-stale-move")
 			}
 		case kind < 40: // best move
+			if kind%8 == 3 && pendingUnit == nil {
+				// the vehicle-level query, for ANY root unit: a unit that is planned already (a one-of unit whose alternate
+				// is on a route, a group, a plain unit) has no executable move on any vehicle
+				roots := unitsOf(sol, func(u nextroute.SolutionPlanUnit) bool { return u.IsPlanned() && !u.IsFixed() })
+				vehicles := sol.Vehicles()
+				if len(roots) > 0 && len(vehicles) > 0 {
+					u := roots[rng.Intn(len(roots))]
+					v := vehicles[rng.Intn(len(vehicles))]
+					// a one-of unit (the alternates of a vehicle) is asked on the vehicle that carries its planned member: whether it
+					// is satisfied already is known at the unit's level only
+					var oneofs []nextroute.SolutionPlanUnit
+					for _, r := range roots {
+						if unitRole(r) == "oneof" {
+							oneofs = append(oneofs, r)
+						}
+					}
+					if len(oneofs) > 0 && rng.Intn(2) == 0 {
+						u = oneofs[rng.Intn(len(oneofs))]
+						for _, m := range memberStopsUnits(u) {
+							if m.IsPlanned() && len(m.SolutionStops()) > 0 {
+								v = m.SolutionStops()[0].Vehicle()
+							}
+						}
+					}
+					role := unitRole(u)
+					var mv nextroute.SolutionMove
+					if doPanic("vehicle-bestmove("+role+")", func() { mv = v.BestMove(ctx, u) }) {
+						return
+					}
+					o.Count("vehicle-bestmove-on-planned-unit:" + role)
+					if role == "oneof" {
+						np := 0
+						for _, m := range memberStopsUnits(u) {
+							if m.IsPlanned() {
+								np++
+							}
+						}
+						o.Count(fmt.Sprintf("vehicle-bestmove-oneof:members=%d-planned=%d", len(memberStopsUnits(u)), np))
+					}
+					if mv != nil && mv.IsExecutable() {
+						// (judged in every state: whether a unit is planned is read from its stops, not from the collections a
+						// listed finding may have left inconsistent)
+						o.Violate(Violation{Property: "C10", Clause: "vehicle-best-move-executable-for-planned-unit",
+							Sig:    "C10|vehicle-best-move-executable-for-planned-unit|" + role,
+							Detail: fmt.Sprintf("SolutionVehicle.BestMove offers an executable move for a %s unit that is planned", role), Replay: hc})
+						if role == "oneof" {
+							// what executing it does, on a copy: a second alternate stop on a vehicle (C03)
+							cp := sol.Copy()
+							cu := cp.SolutionPlanUnit(u.ModelPlanUnit())
+							for _, cv := range cp.Vehicles() {
+								if cv.Index() != v.Index() || cu == nil {
+									continue
+								}
+								if cm := cv.BestMove(ctx, cu); cm != nil && cm.IsExecutable() {
+									if okx, ex := cm.Execute(ctx); ex == nil && okx {
+										n := 0
+										for _, m := range memberStopsUnits(cu) {
+											if m.IsPlanned() {
+												n++
+											}
+										}
+										if n > 1 {
+											o.Violate(Violation{Property: "C03", Clause: "more-than-one-alternate", Sig: "C03|more-than-one-alternate|-|vehicle-bestmove(oneof)",
+												Detail: fmt.Sprintf("after executing the vehicle-level best move %d alternates of the unit are planned", n), Replay: hc})
+										}
+									}
+								}
+							}
+						}
+					}
+				}
+			}
 			unpl := unitsOf(sol, func(u nextroute.SolutionPlanUnit) bool { return !u.IsPlanned() && !u.IsFixed() && u != pendingUnit })
 			if len(unpl) == 0 {
 				continue
@@ -1262,6 +1353,7 @@ func runHistCase(o *Out, ci int, hc *histCase, nops int, distinct map[string]boo
 				}
 				if forcedUnit == nil {
 					forced = nil
+					o.Count("forced-script-abandoned:unit-not-placeable")
 					continue
 				}
 				su, v = forcedUnit, vehicles[0]
@@ -1275,6 +1367,7 @@ func runHistCase(o *Out, ci int, hc *histCase, nops int, distinct map[string]boo
 				target := v.SolutionStops()
 				if len(target)-back < 1 {
 					forced = nil
+					o.Count("forced-script-abandoned:route-too-short")
 					continue
 				}
 				mv, _ = moveAt(su, su.SolutionStops(), target, []int{len(target) - back})
@@ -1406,16 +1499,23 @@ func runHistCase(o *Out, ci int, hc *histCase, nops int, distinct map[string]boo
 			}
 			lku := linksBeforeUnplan(sol, u)
 			eou := engC.beforeUnplan(sol, u)
+			var forbidVeh nextroute.SolutionVehicle
 			if su, isStops := u.(nextroute.SolutionPlanStopsUnit); isStops && uc != nil && rng.Intn(3) == 0 && len(su.SolutionStops()) > 0 {
 				mine := map[int]bool{}
 				for _, st := range su.SolutionStops() {
 					mine[st.ModelStop().Index()] = true
 				}
-				forbid.sig = routeSigWithout(su.SolutionStops()[0].Vehicle(), func(st nextroute.SolutionStop) bool { return mine[st.ModelStop().Index()] })
+				forbidVeh = su.SolutionStops()[0].Vehicle()
+				forbid.sig = routeSigWithout(forbidVeh, func(st nextroute.SolutionStop) bool { return mine[st.ModelStop().Index()] })
 				o.Count("forbid:unplan-stops-unit")
 			}
 			if doPanic(opDesc, func() { ok, e = u.UnPlan() }) {
 				return
+			}
+			if e == nil && ok && forbid.sig != "" && routeSig(forbidVeh) == forbid.sig {
+				// the un-plan produced exactly the route the (vehicle-level) user constraint forbids and reported success
+				o.Violate(Violation{Property: "C19", Clause: "user-constraint-violated", Sig: "C19|user-constraint-violated|forbid|after-" + opDesc,
+					Detail: "the route-forbidding user constraint (temporal=" + b01(fc.temporal) + ") is violated after an accepted un-plan: " + forbid.sig, Replay: hc})
 			}
 			forbid.sig = ""
 			if e == nil {
@@ -1466,6 +1566,11 @@ func runHistCase(o *Out, ci int, hc *histCase, nops int, distinct map[string]boo
 		case kind < 82: // vehicle-level un-plan
 			vehicles := sol.Vehicles()
 			v := vehicles[rng.Intn(len(vehicles))]
+			scripted := len(forced) > 0 && forced[0].veh
+			if scripted {
+				forced = forced[1:]
+				v = vehicles[0]
+			}
 			opDesc = "vehicle-unplan"
 			n := v.NumberOfStops()
 			var ok bool
@@ -1481,13 +1586,20 @@ func runHistCase(o *Out, ci int, hc *histCase, nops int, distinct map[string]boo
 					}
 				}
 			}
-			if uc != nil && len(vus) > 0 && rng.Intn(2) == 0 {
+			if uc != nil && len(vus) > 0 && (rng.Intn(2) == 0 || scripted) {
+				if scripted {
+					o.Count("forbid:vehicle-unplan-scripted")
+				}
 				forbid.sig = routeSigWithout(v, func(st nextroute.SolutionStop) bool { return removableByVehicleUnplan(sol, st) })
 				o.Count("forbid:vehicle-unplan")
 			}
 			eov := engC.beforeVehicleUnplan(sol, v)
 			if doPanic(opDesc, func() { ok, e = v.Unplan() }) {
 				return
+			}
+			if e == nil && ok && forbid.sig != "" && routeSig(v) == forbid.sig {
+				o.Violate(Violation{Property: "C19", Clause: "user-constraint-violated", Sig: "C19|user-constraint-violated|forbid|after-" + opDesc,
+					Detail: "the route-forbidding user constraint (temporal=" + b01(fc.temporal) + ") is violated after an accepted vehicle un-plan: " + forbid.sig, Replay: hc})
 			}
 			forbid.sig = ""
 			if e == nil && !tainted {
